@@ -288,8 +288,7 @@ def _seq(p: Dict[str, Any], stats: Dict[str, int]) -> List[Dict[str, Any]]:
     else:
         real, model = DedupeRing(me), None
     hits = misses = 0
-    discarded = False
-    window: List[str] = []
+    slots: List[List[Any]] = []
     for i, op in enumerate(p["ops"]):
         o = op["op"]
         stats["evaluations"] = stats.get("evaluations", 0) + 1
@@ -410,29 +409,38 @@ def _seq(p: Dict[str, Any], stats: Dict[str, int]) -> List[Dict[str, Any]]:
                 bad("entry-cap", "len %d > %d; %s" % (len(real), me, ctx))
             if list(real._q) != list(model.d) and me:
                 bad("fifo-order", "order %s, model %s; %s" % (list(real._q), list(model.d), ctx))
-        else:  # DedupeRing
+        else:  # DedupeRing: a window of the last `me` pushes; discard() retires ONE live occurrence (its slot stays until evicted)
             if o == "put":
-                if me and len(window) >= me:
+                if me and len(slots) >= me:
                     stats["evictions"] = stats.get("evictions", 0) + 1
                 real.add(op["k"])
                 if me:
-                    window.append(op["k"])
-                    window = window[-me:]
+                    slots.append([op["k"], True])
+                    del slots[:-me]
             elif o == "discard":
                 real.discard(op["k"])
-                discarded = True
+                for s in slots:
+                    if s[0] == op["k"] and s[1]:
+                        s[1] = False
+                        break
+                stats["ring_discards"] = stats.get("ring_discards", 0) + 1
             elif o in ("get", "contains"):
                 c = bool(real.contains(op["k"]))
+                want = any(s[0] == op["k"] and s[1] for s in slots)
                 if c and op["k"] not in real.tolist():
                     bad("phantom-member", "contains(%r) is true but the ring holds %s; %s" % (op["k"], real.tolist(), ctx))
-                if not discarded and c != (op["k"] in window):
-                    bad("membership", "contains(%r)=%s, last-%d window %s; %s" % (op["k"], c, me, window, ctx))
+                if c != want:
+                    bad("membership", "contains(%r)=%s, window (value, live) %s; %s" % (op["k"], c, slots, ctx))
             if len(real) > me:
                 bad("entry-cap", "len %d > %d; %s" % (len(real), me, ctx))
             if me == 0 and (len(real) or real.contains(op.get("k", "a"))):
                 bad("disabled", ctx)
-            if not discarded and real.tolist() != window:
-                bad("ring-order", "ring %s, window %s; %s" % (real.tolist(), window, ctx))
+            if real.tolist() != [s[0] for s in slots]:
+                bad("ring-order", "ring %s, window %s; %s" % (real.tolist(), [s[0] for s in slots], ctx))
+            for key in KEYS:
+                if bool(real.contains(key)) != any(s[0] == key and s[1] for s in slots):
+                    bad("membership", "contains(%r)=%s, window (value, live) %s; %s" % (key, real.contains(key), slots, ctx))
+                    break
         if viol:
             break
     return viol
